@@ -832,6 +832,31 @@ example : let am : RBM ℝ 2 3 := ⟨fun i j => (i.val : ℝ) - j.val + 0.5, fun
   (C08_pure_states _ (fun σ => (C08_rbm_psi_ne_zero _ _ σ).2) 1).2.1
 
 
+/-- **RBM wavefunctions, no hypotheses** (second audit, item C08-A1): for EVERY parameter setting of the complex
+wavefunction `ψ_λμ` all five estimators average to `⟨ψ|O|ψ⟩/⟨ψ|ψ⟩` — `C08_pure_states` with its hypothesis discharged by
+`C08_rbm_psi_ne_zero` (C01: `|ψ σ|² = exp(−E_λ σ) > 0`). -/
+theorem C08_pure_rbm {hid : ℕ} (am ph : RBM ℝ n hid) (c : ℕ) :
+    let psi : Cfg n → C ℝ := fun σ => Wave.psiCplx am ph (fun j => bit (σ j))
+    (∑ σ, bornPure psi σ * sigmaXApply (ImpState.pure psi) false σ = (expectation psi (magnetOp pauliX)).re)
+    ∧ (∑ σ, bornPure psi σ * sigmaYApply (ImpState.pure psi) false σ = (expectation psi (magnetOp pauliY)).re)
+    ∧ (0 < n → ∑ σ, bornPure psi σ * sigmaZApply false σ = (expectation psi (magnetOp pauliZ)).re)
+    ∧ (∑ σ, bornPure psi σ * neighbourPeriodicApply c σ = (expectation psi (neighbourPeriodicOp c)).re)
+    ∧ (1 ≤ c → ∃ val : Cfg n → ℝ, (∀ σ, neighbourOpenApply c σ = .ok (val σ)) ∧
+        ∑ σ, bornPure psi σ * val σ = (expectation psi (neighbourOpenOp c)).re) :=
+  C08_pure_states _ (fun σ => (C08_rbm_psi_ne_zero am ph σ).2) c
+
+/-- … and of the positive wavefunction `ψ_λ`. -/
+theorem C08_pure_rbm_pos {hid : ℕ} (am : RBM ℝ n hid) (c : ℕ) :
+    let psi : Cfg n → C ℝ := fun σ => Wave.psiPos am (fun j => bit (σ j))
+    (∑ σ, bornPure psi σ * sigmaXApply (ImpState.pure psi) false σ = (expectation psi (magnetOp pauliX)).re)
+    ∧ (∑ σ, bornPure psi σ * sigmaYApply (ImpState.pure psi) false σ = (expectation psi (magnetOp pauliY)).re)
+    ∧ (0 < n → ∑ σ, bornPure psi σ * sigmaZApply false σ = (expectation psi (magnetOp pauliZ)).re)
+    ∧ (∑ σ, bornPure psi σ * neighbourPeriodicApply c σ = (expectation psi (neighbourPeriodicOp c)).re)
+    ∧ (1 ≤ c → ∃ val : Cfg n → ℝ, (∀ σ, neighbourOpenApply c σ = .ok (val σ)) ∧
+        ∑ σ, bornPure psi σ * val σ = (expectation psi (neighbourOpenOp c)).re) :=
+  C08_pure_states _ (fun σ => (C08_rbm_psi_ne_zero am am σ).1) c
+
+
 /-! ### Constructor flags as the objects the caller passed -/
 
 /-- **`absolute` as an object** (documented as `bool`; `1`, `numpy.bool_`, 0-dim bool arrays / tensors are what callers also pass, and
